@@ -12,7 +12,7 @@ RULE = ('single rules from the AST generator (literal and wildcard segments, int
         'resolving instantiated and mutated paths (digit strings with leading zeros, signs, long and fractional floats, empty '
         'captures, non-ASCII, CR). Non-trivial = the rule has at least one wildcard and the path matched; distinct = distinct (rule text, path).')
 PYOPT = {'quick': 1, 'thorough': 1}     # one unit of every kind is also served by an interpreter started with -O (assert statements compiled out)
-REQUIRED = ['units_run_under_python_-O', 'keywords_in_another_order', 'built_under_a_narrow_decimal_context', 'roundtrips', 'with_int', 'with_float', 'with_re', 'with_path', 'with_anonymous_positional', 'adjacent_wildcards',
+REQUIRED = ['units_run_under_python_-O', 'rebuilt_after_failing_calls', 'keywords_in_another_order', 'built_under_a_narrow_decimal_context', 'roundtrips', 'with_int', 'with_float', 'with_re', 'with_path', 'with_anonymous_positional', 'adjacent_wildcards',
             'path_followed_by_literal', 'float_needing_positional_notation', 'literals_checked', 'static_rules']
 ASSUMPTIONS = ['parameters are exactly those produced by matching (the statement); float digit strings are at most 30 characters',
                'excluded: a number not in canonical spelling that follows a path/re wildcard in the rule (re-spelling it can move the earlier open-ended match; no builder can prevent that), and a negative zero directly after another wildcard',
@@ -160,6 +160,20 @@ def one_rule(ctx, rng, ast, text, paths, forced=False):
             continue
         if not isinstance(url, str):
             ctx.violation('url()-returns-non-str', f'{where}: {url!r}', wit)
+            continue
+        # ... nor of calls that failed before it on the same route object (a missing value, a value of the wrong kind)
+        ctx.count('rebuilt_after_failing_calls')
+        for bad_args, bad_kw in (((), {}), (args[:-1] if args else (), {k: v for k, v in list(named.items())[:-1]}), (tuple(object() for _ in args), {k: object() for k in named})):
+            try:
+                route.url(*bad_args, **bad_kw)
+            except Exception:  # noqa
+                pass
+        try:
+            url_again = route.url(*args, **named)
+        except Exception as e:  # noqa
+            url_again = f'<raised {e!r}>'
+        if url_again != url:
+            ctx.violation('built-url-depends-on-earlier-failed-calls', f'{where}: url {url!r}, after failing calls on the same route {url_again!r}', wit)
             continue
         # the built URL is a function of the rule and the values: not of the order the keywords are written in,
         # nor of the calling thread's decimal context
